@@ -41,7 +41,7 @@ def render_line(l: Dict[str, Any], style: Dict[str, str], rnd: random.Random, se
 def render(lines: List[Dict[str, Any]], style_idx: int = 0, seed: int = 0) -> List[str]:
     st = STYLES[style_idx % len(STYLES)]
     rnd = random.Random(seed)
-    sep = " " if style_idx % 3 else "  "
+    sep = [" ", "  ", "\t", " \t "][style_idx % 4]
     return [render_line(l, st, rnd, sep) + "\n" for l in lines]
 
 
